@@ -526,7 +526,9 @@ cdef class InterCoefficient(Coefficient):
 
     @classmethod
     def from_PPoly(cls, ppoly, **_):
-        return cls.restore(ppoly.x, np.asarray(ppoly.c, complex))
+        # Copies: the coefficient must not follow later changes of ``ppoly``.
+        return cls.restore(np.array(ppoly.x, dtype=np.float64),
+                           np.array(ppoly.c, dtype=np.complex128))
 
     @classmethod
     def from_Bspline(cls, spline, **_):
